@@ -62,4 +62,11 @@ FocusStd == \A i \in 1..Len(prog) : prog[i].op \in {"gate", "close", "std"} /\ (
 (* focus family: switch / case / default with declarations and uses of one name (scoping of case and default blocks, C07) *)
 FocusSwitch == \A i \in 1..Len(prog) : /\ prog[i].op \in {"decl", "use", "switch", "case", "default", "close"}
                                         /\ (prog[i].op = "decl" => prog[i].ty = "int" /\ prog[i].init.k = "none")
+(* focus family: scoping of compound statements with braced and un-braced bodies - declarations and uses of one name in   *)
+(* the bodies of if / else / while / for and around them (C07: every body, braced or not, is a scope of its own)           *)
+FocusScope == \A i \in 1..Len(prog) : /\ prog[i].op \in {"decl", "use", "if", "else", "while", "for", "close"}
+                                       /\ (prog[i].op = "decl" => prog[i].ty = "int" /\ prog[i].init.k = "none")
+                                       /\ (prog[i].op = "for" => prog[i].it = "r2")
+(* TLC evaluates invariants also on the states a CONSTRAINT cuts off: print only programs inside the family *)
+EmitScope == (Complete /\ FocusScope) => PrintT(<<"CASE", ToJson(CaseRec)>>)
 =============================================================================
